@@ -71,10 +71,31 @@ def _sym_sqrt(e):
     return realnp.sqrt(e)
 
 
+class _Infinitesimal:
+    """|J| of a jet J that vanishes at lam = 0 (formal-series ordering, lam -> 0): only comparisons with concrete constants"""
+
+    def _c(self, c):
+        if isinstance(c, (int, float)) and c != 0:
+            return c
+        raise SymbolicEscape("comparison of an infinitesimal with %r" % (c,))
+
+    def __lt__(self, c):
+        return self._c(c) > 0
+
+    __le__ = __lt__
+
+    def __gt__(self, c):
+        return self._c(c) < 0
+
+    __ge__ = __gt__
+
+
 def _sym_abs(e):
     if isinstance(e, (SR, Cx)):
         return abs(e)
     if isinstance(e, Jet):
+        if not e.c or e.v > 0:
+            return _Infinitesimal()  # |series without constant term|: below every positive constant in the formal ordering
         raise SymbolicEscape("abs of jet")
     return realnp.abs(e)
 
